@@ -86,10 +86,15 @@ pub open spec fn rget(row: Map<u32, CharOpts>, x: u32, dflt: Cell) -> Cell {
     if row.contains_key(x) { cv(row[x]) } else { dflt }
 }
 
-/// the observable cell at (y,x): the stored one, else the blank
-pub open spec fn obs(s: Screen, y: u32, x: u32) -> Cell {
-    if s.buffer@.contains_key(y) { rget(s.buffer@[y]@, x, blank(s)) } else { blank(s) }
+/// the observable cell at (y,x) of a buffer under a given DECSCNM state: the stored cell, else the blank.
+/// `obs` is *inline*: contracts quantify with the trigger cell_at(buffer@, reverse-video?, y, x), so a frame
+/// condition `a.buffer@ == b.buffer@ && a.mode@ == b.mode@` transfers every cell fact from b to a by congruence,
+/// with no extra quantifier.
+pub open spec fn cell_at(buf: Map<u32, HashMap<u32, CharOpts>>, rev: bool, y: u32, x: u32) -> Cell {
+    if buf.contains_key(y) { rget(buf[y]@, x, blank_cell(rev)) } else { blank_cell(rev) }
 }
+#[verifier::inline]
+pub open spec fn obs(s: Screen, y: u32, x: u32) -> Cell { cell_at(s.buffer@, s.mode@.contains(DECSCNM), y, x) }
 
 // ---- representation invariant (C09) ----------------------------------------------
 pub open spec fn wf_geom(s: Screen) -> bool { 1 <= s.columns <= DIM_MAX && 1 <= s.lines <= DIM_MAX }
@@ -106,8 +111,15 @@ pub open spec fn wf_cells(s: Screen) -> bool {
 pub open spec fn wf_tabs(s: Screen) -> bool { forall|t: u32| #![trigger s.tabstops@.contains(t)] s.tabstops@.contains(t) ==> t < s.columns }
 pub open spec fn wf_attr(c: Cursor) -> bool { c.attr.data@ == s_space() }
 
+#[verifier::opaque]
+pub open spec fn saves_ok(sv: Seq<Savepoint>) -> bool {
+    forall|i: int| #![trigger sv[i]] 0 <= i < sv.len() ==> wf_attr(sv[i].cursor)
+}
+pub open spec fn wf_saves(s: Screen) -> bool { saves_ok(s.savepoints@) }
+pub open spec fn wf_saved_columns(s: Screen) -> bool { match s.saved_columns { Some(c) => 1 <= c <= DIM_MAX, None => true } }
 pub open spec fn wf(s: Screen) -> bool {
-    wf_geom(s) && wf_cursor(s) && margins_ok(s.margins, s.lines) && wf_dirty(s) && wf_cells(s) && wf_attr(s.cursor)
+    wf_geom(s) && wf_cursor(s) && margins_ok(s.margins, s.lines) && wf_dirty(s) && wf_cells(s) && wf_attr(s.cursor) && wf_saves(s)
+    && wf_saved_columns(s)
 }
 
 pub open spec fn arg_ok(n: Option<u32>) -> bool { match n { Some(v) => v <= ARG_MAX, None => true } }
@@ -261,7 +273,7 @@ pub fn vec_from_slice(s: &[u32]) -> (r: Vec<u32>)
 #[verifier::external_body]
 pub fn slice_map_collect<F: Fn(&u32) -> u32>(s: &[u32], f: F) -> (r: Vec<u32>)
     requires
-        forall|i: int| 0 <= i < s@.len() ==> f.requires((&s@[i],)),
+        forall|i: int| 0 <= i < s@.len() ==> f.requires((&#[trigger] s@[i],)),
     ensures
         r@.len() == s@.len(),
         forall|i: int| 0 <= i < s@.len() ==> f.ensures((&s@[i],), #[trigger] r@[i]),
@@ -269,10 +281,14 @@ pub fn slice_map_collect<F: Fn(&u32) -> u32>(s: &[u32], f: F) -> (r: Vec<u32>)
     s.iter().map(f).collect::<Vec<_>>()
 }
 
+/// membership in a Vec's element sequence (opaque: callers connect it to has_mode through lemma_has_mode)
+#[verifier::opaque]
+pub open spec fn vec_has(v: Seq<u32>, k: u32) -> bool { v.contains(k) }
+
 /// `V.iter().any(|m| *m == K)`
 #[verifier::external_body]
 pub fn vec_any_eq(v: &Vec<u32>, k: u32) -> (r: bool)
-    ensures r == v@.contains(k),
+    ensures r == vec_has(v@, k),
 {
     v.iter().any(|m| *m == k)
 }
@@ -280,7 +296,7 @@ pub fn vec_any_eq(v: &Vec<u32>, k: u32) -> (r: bool)
 /// `S.extend(V.iter())` on HashSet<u32>
 #[verifier::external_body]
 pub fn hs_extend_vec(s: &mut HashSet<u32>, v: &Vec<u32>)
-    ensures forall|x: u32| #![trigger final(s)@.contains(x)] final(s)@.contains(x) == (old(s)@.contains(x) || v@.contains(x)),
+    ensures forall|x: u32| #![trigger final(s)@.contains(x)] final(s)@.contains(x) == (old(s)@.contains(x) || vec_has(v@, x)),
 {
     s.extend(v.iter())
 }
@@ -288,7 +304,7 @@ pub fn hs_extend_vec(s: &mut HashSet<u32>, v: &Vec<u32>)
 /// `S.iter().filter(|&&x| !V.iter().any(|&y| x == y)).cloned().collect()` on HashSet<u32>
 #[verifier::external_body]
 pub fn hs_minus_vec(s: &HashSet<u32>, v: &Vec<u32>) -> (r: HashSet<u32>)
-    ensures forall|x: u32| #![trigger r@.contains(x)] r@.contains(x) == (s@.contains(x) && !v@.contains(x)),
+    ensures forall|x: u32| #![trigger r@.contains(x)] r@.contains(x) == (s@.contains(x) && !vec_has(v@, x)),
 {
     s.iter().filter(|&&x| !v.iter().any(|&y| x == y)).cloned().collect()
 }
@@ -323,5 +339,116 @@ pub fn buffer_remove_columns(b: &mut HashMap<u32, HashMap<u32, CharOpts>>, lo: u
         for x in lo..hi {
             line.remove(&x);
         }
+    }
+}
+
+
+// ---- modes (C12) ---------------------------------------------------------------
+/// the number actually stored for a mode parameter: DEC-private numbers are shifted left by 5
+pub open spec fn mode_code(m: u32, private: bool) -> u32 { if private { m << 5 } else { m } }
+#[verifier::opaque]
+pub open spec fn has_mode(modes: Seq<u32>, private: bool, k: u32) -> bool {
+    exists|i: int| 0 <= i < modes.len() && mode_code(#[trigger] modes[i], private) == k
+}
+pub open spec fn modes_ok(modes: Seq<u32>) -> bool { forall|i: int| 0 <= i < modes.len() ==> #[trigger] modes[i] <= ARG_MAX }
+pub open spec fn rev_if(b: bool, r: bool, c: Cell) -> Cell { if b { Cell { reverse: r, ..c } } else { c } }
+/// row of the home position for a state with the given modes/margins
+pub open spec fn home_y(s: Screen) -> int { if origin_on(s) { top_of(s) } else { 0 } }
+
+/// everything except the mode set
+pub open spec fn same_but_mode(a: Screen, b: Screen) -> bool {
+    a.savepoints@ == b.savepoints@ && a.columns == b.columns && a.lines == b.lines && a.dirty@ == b.dirty@
+    && a.margins == b.margins && a.buffer@ == b.buffer@ && a.title@ == b.title@
+    && a.icon_name@ == b.icon_name@ && a.charset == b.charset && a.g0_charset == b.g0_charset
+    && a.g1_charset == b.g1_charset && a.tabstops@ == b.tabstops@ && a.cursor == b.cursor
+    && a.saved_columns == b.saved_columns
+}
+/// the components no mode switch, resize or save/restore ever touches
+pub open spec fn same_static(a: Screen, b: Screen) -> bool {
+    a.title@ == b.title@ && a.icon_name@ == b.icon_name@ && a.tabstops@ == b.tabstops@
+}
+pub open spec fn same_charsets(a: Screen, b: Screen) -> bool {
+    a.charset == b.charset && a.g0_charset == b.g0_charset && a.g1_charset == b.g1_charset
+}
+
+pub proof fn lemma_has_mode(ml: Seq<u32>, modes: Seq<u32>, private: bool, k: u32)
+    requires
+        ml.len() == modes.len(),
+        forall|i: int| 0 <= i < modes.len() ==> #[trigger] ml[i] == mode_code(modes[i], private),
+    ensures
+        vec_has(ml, k) == has_mode(modes, private, k),
+{
+    reveal(has_mode);
+    reveal(vec_has);
+    if ml.contains(k) {
+        let i = choose|i: int| 0 <= i < ml.len() && ml[i] == k;
+        assert(mode_code(modes[i], private) == k);
+    }
+    if has_mode(modes, private, k) {
+        let i = choose|i: int| 0 <= i < modes.len() && mode_code(#[trigger] modes[i], private) == k;
+        assert(ml[i] == k);
+    }
+}
+
+pub open spec fn same_but_cursor_attr(a: Screen, b: Screen) -> bool {
+    a.savepoints@ == b.savepoints@ && a.columns == b.columns && a.lines == b.lines && a.dirty@ == b.dirty@
+    && a.margins == b.margins && a.buffer@ == b.buffer@ && a.mode@ == b.mode@ && a.title@ == b.title@
+    && a.icon_name@ == b.icon_name@ && a.charset == b.charset && a.g0_charset == b.g0_charset
+    && a.g1_charset == b.g1_charset && a.tabstops@ == b.tabstops@ && a.cursor.x == b.cursor.x && a.cursor.y == b.cursor.y
+    && a.cursor.hidden == b.cursor.hidden && a.saved_columns == b.saved_columns
+}
+pub open spec fn same_but_savepoints(a: Screen, b: Screen) -> bool {
+    a.columns == b.columns && a.lines == b.lines && a.dirty@ == b.dirty@
+    && a.margins == b.margins && a.buffer@ == b.buffer@ && a.mode@ == b.mode@ && a.title@ == b.title@
+    && a.icon_name@ == b.icon_name@ && a.charset == b.charset && a.g0_charset == b.g0_charset
+    && a.g1_charset == b.g1_charset && a.tabstops@ == b.tabstops@ && a.cursor == b.cursor
+    && a.saved_columns == b.saved_columns
+}
+
+pub open spec fn rs_lines(s: Screen, lines: Option<u32>) -> u32 { match lines { Some(l) => l, None => s.lines } }
+pub open spec fn rs_cols(s: Screen, columns: Option<u32>) -> u32 { match columns { Some(c) => c, None => s.columns } }
+/// every component equal (a complete no-op)
+pub open spec fn same_all(a: Screen, b: Screen) -> bool {
+    same_but_mode(a, b) && a.mode@ == b.mode@
+}
+
+/// same observable grid: same buffer, same DECSCNM state (quantifier-free; see cell_at)
+pub open spec fn obs_same(a: Screen, b: Screen) -> bool {
+    a.buffer@ == b.buffer@ && a.mode@.contains(DECSCNM) == b.mode@.contains(DECSCNM)
+}
+
+/// composition of the per-block effects of set_mode / reset_mode on the observable grid (isolated query)
+pub proof fn lemma_mode_cells(pre: Screen, m1: Screen, s4: Screen, s5: Screen, s6: Screen, fin: Screen, has_s: bool, has_c: bool, rev: bool)
+    requires
+        m1.buffer@ == pre.buffer@,
+        has_s ==> m1.mode@.contains(DECSCNM) == rev,
+        !has_s ==> m1.mode@.contains(DECSCNM) == pre.mode@.contains(DECSCNM),
+        forall|y: u32, x: u32| #![trigger obs(s4, y, x)] y < fin.lines && x < fin.columns ==> obs(s4, y, x) == (if has_c { erased(pre) } else { obs(m1, y, x) }),
+        obs_same(s5, s4),
+        forall|y: u32, x: u32| #![trigger obs(s6, y, x)] obs(s6, y, x) == rev_if(has_s, rev, obs(s5, y, x)),
+        obs_same(fin, s6),
+    ensures
+        forall|y: u32, x: u32| #![trigger obs(fin, y, x)] y < fin.lines && x < fin.columns ==>
+            obs(fin, y, x) == rev_if(has_s, rev, if has_c { erased(pre) } else { obs(pre, y, x) }),
+{
+    assert forall|y: u32, x: u32| #![trigger obs(fin, y, x)] y < fin.lines && x < fin.columns implies
+        obs(fin, y, x) == rev_if(has_s, rev, if has_c { erased(pre) } else { obs(pre, y, x) }) by {
+        assert(obs(fin, y, x) == obs(s6, y, x));
+        assert(obs(s6, y, x) == rev_if(has_s, rev, obs(s5, y, x)));
+        assert(obs(s5, y, x) == obs(s4, y, x));
+        if !has_c {
+            assert(obs(s4, y, x) == obs(m1, y, x));
+            assert(obs(m1, y, x) == (if stored(pre, y, x) { obs(pre, y, x) } else { blank(m1) }));
+        }
+    }
+}
+
+pub proof fn lemma_has_mode_single(modes: Seq<u32>, private: bool)
+    requires modes.len() == 1,
+    ensures forall|v: u32| #![trigger has_mode(modes, private, v)] has_mode(modes, private, v) == (v == mode_code(modes[0], private)),
+{
+    reveal(has_mode);
+    assert forall|v: u32| #![trigger has_mode(modes, private, v)] has_mode(modes, private, v) == (v == mode_code(modes[0], private)) by {
+        if v == mode_code(modes[0], private) { assert(mode_code(#[trigger] modes[0], private) == v); }
     }
 }
